@@ -134,6 +134,7 @@ func zzStepEnv() *env.Env {
 // (Debug=false) and reports (value, err, panicked).
 var zzPanicMsg string
 var zzScopeAfter *env.Env
+var zzResultRV reflect.Value
 
 func zzRunNode(e *env.Env, node interface{}, cat string) (v interface{}, err error, panicked bool) {
 	zzPanicMsg = ""
@@ -164,6 +165,7 @@ func zzRunNode(e *env.Env, node interface{}, cat string) (v interface{}, err err
 	ri := runInfoStruct{ctx: context.Background(), env: e, options: &Options{Debug: false}, stmt: stmt, rv: nilValue}
 	ri.runSingleStmt()
 	zzScopeAfter = ri.env
+	zzResultRV = ri.rv
 	if len(ri.defers) > 0 {
 		ri.runDefers()
 	}
@@ -228,6 +230,19 @@ func zzStepMakers(vary int, pos *int, classes int) *zzMakers {
 					return &ast.DerefExpr{Expr: child()}
 				}
 				return child()
+			case "DeferStmt.Expr", "GoroutineStmt.Expr":
+				// the grammar only accepts calls here: a named call (script
+				// function, Go function that panics, non-function) or an
+				// anonymous call of an arbitrary value
+				switch zz.Choose(4) {
+				case 0:
+					return &ast.CallExpr{Name: "f", SubExprs: []ast.Expr{child()}, Go: field == "GoroutineStmt.Expr"}
+				case 1:
+					return &ast.CallExpr{Name: "g", SubExprs: []ast.Expr{child()}, Go: field == "GoroutineStmt.Expr"}
+				case 2:
+					return &ast.CallExpr{Name: "x", SubExprs: []ast.Expr{child()}, Go: field == "GoroutineStmt.Expr"}
+				}
+				return &ast.AnonCallExpr{Expr: child(), SubExprs: []ast.Expr{zzLit(int64(1))}, Go: field == "GoroutineStmt.Expr"}
 			case "ImportExpr.Name":
 				if zz.Choose(2) == 0 {
 					return zzLit("strings")
@@ -286,7 +301,7 @@ func zzStepKind(k int, classes int) {
 		// C14-F2: what the step hands back (its value, the bindings it made)
 		// must not alias process-wide state: a later store through such an
 		// alias would be visible to every other run
-		al := zz.FrozenAliases(v)
+		al := zz.FrozenAliases(v) + zz.FrozenAliases(zzResultRV)
 		for _, name := range []string{"x", "v1", "v2", "k", "v", "e"} {
 			if rv, gerr := e.GetValue(name); gerr == nil {
 				al += zz.FrozenAliases(rv)
@@ -297,6 +312,19 @@ func zzStepKind(k int, classes int) {
 	} else {
 		// native oracle for F2: store through every alias the step handed
 		// back, then look at the shared nil
+		if zzResultRV.IsValid() && zzResultRV.CanSet() && zzResultRV.Kind() == reflect.Int64 {
+			// a settable result must not be a cell of the small-integer cache
+			old := zzResultRV.Int()
+			zzResultRV.SetInt(123456789)
+			okc := true
+			for k := int64(int64CacheMin); k <= 16; k++ {
+				if int64Value(k).Int() != k {
+					okc = false
+				}
+			}
+			zzResultRV.SetInt(old)
+			zz.Assert(okc, "C14.F2.no-alias-to-shared-state/"+kind)
+		}
 		if p, ok := v.(*interface{}); ok && p != nil {
 			old := *p
 			*p = int64(12345)
